@@ -14,8 +14,11 @@ TNew  == IsEvent("new") /\ T.err = FALSE /\ T.bs = 16 /\ key' = T.key /\ last' =
 TCall == /\ IsEvent("call") /\ Call(T.op, T.b, T.alias)
          /\ T.out = (IF T.op = "enc" THEN Row(key, T.b).enc ELSE Row(key, T.b).dec)
          /\ (T.alias \/ T.src_intact)
+         /\ T.tail_intact                     \* a destination longer than a block is written in its first 16 bytes only
+\* the refused call: whatever it did (panic, error, nothing), the following calls are judged as ever
+TShort == /\ IsEvent("short") /\ Short(T.op)
 TraceInit == l = 1 /\ key = 0 /\ last = <<"none", 0>> /\ hist = <<>>
-TraceNext == TNew \/ TCall
+TraceNext == TNew \/ TCall \/ TShort
 TraceSpec == TraceInit /\ [][TraceNext]_<<vars, l>>
 HighWater == TLCSet(1, IF l > TLCGet(1) THEN l ELSE TLCGet(1))
 Accepted == PrintT(<<"HWM", TLCGet(1), Len(Trace)>>) /\ TLCGet(1) = Len(Trace) + 1
